@@ -300,4 +300,42 @@ theorem geos_sides_chain {α} (x : List α) (h : 4 ≤ x.length) :
 example : contourOf (geosSides [0, 1, 2, 3, 4, 5, 6]) = [0, 1, 2, 3, 4, 5, 6] := by decide
 example : geosSides [0, 1, 2, 3, 4, 5, 6] = [[0, 1, 2], [2, 3], [3, 4, 5, 6], [6, 0]] := by decide
 
+/-! ### the exact index selection -/
+
+theorem aux_linsel_step (m d i : Nat) (hd : 0 < d) (hmd : d ≤ m) : i * m / d < (i + 1) * m / d := by
+  have h1 : (i * m + d) / d = i * m / d + 1 := Nat.add_div_right _ hd
+  have h2 : (i * m + d) / d ≤ ((i + 1) * m) / d := by
+    apply Nat.div_le_div_right
+    rw [Nat.add_mul, Nat.one_mul]; omega
+  omega
+
+theorem aux_linsel_mono (m d : Nat) (hd : 0 < d) (hmd : d ≤ m) : ∀ i j : Nat, i < j → i * m / d < j * m / d := by
+  intro i j hij
+  induction j with
+  | zero => omega
+  | succ j ih =>
+    rcases Nat.lt_succ_iff_lt_or_eq.mp hij with h | h
+    · exact Nat.lt_trans (ih h) (aux_linsel_step m d j hd hmd)
+    · subst h; exact aux_linsel_step m d i hd hmd
+
+/-- **the exact selection never repeats a vertex**: for `2 ≤ k ≤ n` the indices `⌊i (n−1)/(k−1)⌋`, `i = 0 … k−1`, start at 0,
+end at `n − 1` and are strictly increasing -/
+theorem linSel_good (n k : Nat) (hk : 2 ≤ k) (hkn : k ≤ n) : Good n (linSel n k) := by
+  have hk1 : ¬ k ≤ 1 := by omega
+  have hd : 0 < k - 1 := by omega
+  simp only [linSel, hk1, if_false]
+  refine ⟨?_, ?_, ?_⟩
+  · cases k with
+    | zero => omega
+    | succ k' => simp [List.range_succ_eq_map]
+  · cases k with
+    | zero => omega
+    | succ k' =>
+      simp only [List.range_succ, List.map_append, List.map_cons, List.map_nil, List.getLast?_append, List.getLast?_singleton,
+        Option.some_or, Nat.add_sub_cancel]
+      rw [Nat.mul_div_cancel_left _ (by omega)]
+  · apply List.Pairwise.map (R := (· < ·)) _ _ List.pairwise_lt_range
+    intro a b hab
+    exact aux_linsel_mono (n - 1) (k - 1) hd (by omega) a b hab
+
 end PyresampleModel.C16
